@@ -58,6 +58,7 @@ type Exec struct {
 	topPre       *State
 	topVars      map[string]Value
 	resumeHeader *ssa.BasicBlock
+	keepTopFrame bool
 	inputs       []namedTerm
 	fnNotes      map[string][]string
 	pathTrace    []string
@@ -171,6 +172,11 @@ func (ex *Exec) runFunc(st *State, fn *ssa.Function, args []Value, k cont) {
 	st.frames = append(st.frames, fr)
 	depth := len(st.frames)
 	ex.runBlock(st, fn.Blocks[0], nil, 0, func(st *State, res []Value) {
+		if depth == 1 && ex.keepTopFrame {
+			// the top-level function's locals stay visible to its postconditions
+			k(st, res)
+			return
+		}
 		st.frames = st.frames[:depth-1]
 		k(st, res)
 	})
@@ -897,7 +903,7 @@ func snapArr(arr, off, ln *Term) *Term {
 		return MkBytes(ZeroArr, ln)
 	}
 	if n, ok := ln.U64(); ok && n <= 256 {
-		if _, ok := off.U64(); ok || n <= 64 {
+		if _, ok := off.U64(); ok || n <= 128 {
 			out := ZeroArr
 			for i := uint64(0); i < n; i++ {
 				b := Select(arr, BVAdd(off, BVU(64, i)))
